@@ -5,6 +5,7 @@ import FemtoVerif.Driver.C13
 import FemtoVerif.Driver.C08
 import FemtoVerif.Driver.C15
 import FemtoVerif.Driver.C14
+import FemtoVerif.Driver.C04
 open Lean
 
 namespace Femto.Driver
@@ -26,6 +27,8 @@ def dispatch (op : String) (j : Json) : Except String Json :=
   | "c08.adj" => C08.adj j
   | "c15.raster" => C15.raster j
   | "c14.figure" => C14.figure j
+  | "c04.chain" => C04.chain j
+  | "c04.sbend" => C04.sbend j
   | _ => .error s!"unknown op {op}"
 
 def handleLine (line : String) : String :=
